@@ -788,6 +788,23 @@ def finish_corr(ctx, tag, exprs, metas, key, what, keyfn=None):
 
 # ------------------------------------------------------------------------------------------------
 
+def _src_items():
+    from harness.lib import pysrc
+    return [dict(file="holopy/scattering/imageformation.py", qualname="ImageFormation._transform_to_desired_coordinates (cartesian)",
+                 name="coord_handoff_src",
+                 fn=lambda repo: pysrc.translate_assigned_list(
+                     repo, "holopy/scattering/imageformation.py", "ImageFormation._transform_to_desired_coordinates",
+                     "coord_handoff_src", "original_coordinate_values", 3,
+                     {"f.x.values": "x", "f.y.values": "y", "f.z.values": "z", "origin[0]": "ox", "origin[1]": "oy", "origin[2]": "oz"},
+                     inputs=["wavevec"]))]
+
+
+def stage_srctie(ctx):
+    from harness.lib import srctie
+    ok = srctie.run(ctx, "C05", "From HV Require Import C01.Model C05.Model C05.Lemmas C05.Props.\n", _src_items())
+    ctx.count("srctie:%s" % ("ok" if ok else "broken"))
+
+
 def run(ctx):
     ctx.rule = ("exploration: theory (Mie near/far/radial-far, layered sphere, Mie superposition of 2-4 spheres, Multisphere "
                 "2-3 spheres, T-matrix cylinder/spheroid tilted, MieLens, AberratedMieLens, Lens(Mie) 60 azimuthal nodes, "
@@ -825,7 +842,14 @@ def run(ctx):
         "evaluations of calc_field, hypothesis: they depend on rho, z, sphere, lens only",
         "oracle: Lens quadrature nodes and weights (leggauss, linspace), prefactor exponentials",
         "oracle: SCSMFO amncalc, asmfr; ampld (T-matrix) - explored only"]
+    ctx.clauses_proved.append(
+        "source tie: the Cartesian hand-off of ImageFormation._transform_to_desired_coordinates (k (x - x0), k (y - y0), k (z0 - z)), "
+        "translated from the current source text on every run, is proved equal to the model's position; shift invariance, rotation "
+        "and mirror covariance of the offsets restated for the translated source")
+    ctx.trusted.append("translator harness/lib/pysrc.py (the list assigned to original_coordinate_values in the Cartesian branch; "
+                       "f.x.values etc. and origin[i] opaque reals)")
     guarded(ctx, "prove", ctx.prove)
+    guarded(ctx, "source-tie", stage_srctie, ctx)
     boot.boot()
     guarded(ctx, "corr-mie", stage_corr_mie, ctx)
     guarded(ctx, "corr-mielens", stage_corr_mielens, ctx)
@@ -836,9 +860,13 @@ def run(ctx):
 
 def replay(ctx, data):
     """re-run the stored failing case on the current tree"""
-    boot.boot()
     d = data["data"]
     kind = d.get("kind")
+    if kind == "tie":
+        ctx.prove()
+        stage_srctie(ctx)
+        return
+    boot.boot()
     if kind == "explore":
         spec = d["spec"]
         ctx.maxerr = {}
